@@ -125,7 +125,8 @@ type VTimer struct {
 	ch       *Chan
 	active   bool
 	deadline *Term // BV64 ns on the model clock
-	fn       Value // AfterFunc callback (unsupported to fire)
+	fn       Value // AfterFunc callback
+	pending  bool  // AfterFunc: not yet run and not stopped
 }
 
 type RangeIter struct {
